@@ -1,4 +1,14 @@
-"""R-PROV: key and value of a named kinematic-variable store share provenance."""
+"""R-PROV: key and value of a named kinematic-variable store share provenance.
+
+``store_pairs``            every way one entry is put into a mapping (subscript store, setdefault, dict display /
+                           comprehension, ``zip`` or ``(k, v)`` pairs handed to ``dict`` / ``update``),
+``named_stores``           those whose key comes from a naming function, with the definitions that name the entry
+                           (``source_defs``: plain copies / aliases are looked through) and the closure of the value,
+``stores_through_helpers`` the same, with stores that were extracted into a helper function LIFTED to the call site
+                           (parameters of the helper stand for what reaches the arguments),
+``describe`` / ``positional_call`` / ``canon_scope``  local-name and keyword/positional independent texts for keys,
+``PathValues`` / ``CallInliner`` / ``ifexp_alternatives`` / ``as_display``  path-wise forward substitution (AST level).
+"""
 
 from __future__ import annotations
 
@@ -19,21 +29,24 @@ NAMING_FUNCTIONS = {
 
 @dataclass
 class ProvStore:
-    fn: FuncInfo
+    fn: FuncInfo  # the function the store is judged in (a store inside a helper is lifted to the helper's caller)
     stmt: ast.AST
     key_expr: ast.AST
     value_expr: ast.AST
     naming_call: ast.Call
     identity_defs: set[Def]
     value_closure: set[Def]
+    target: ast.AST | None = None  # the mapping that is written (None: a dict display / comprehension)
+    origin: FuncInfo | None = None  # the function that contains the statement (differs from ``fn`` after lifting)
 
     @property
     def missing(self) -> set[Def]:
         return {d for d in self.identity_defs if d not in self.value_closure}
 
 
-def describe(d: Def, canonical: bool = False) -> str:
-    """Human readable (or, with ``canonical``, local-name independent) description."""
+def describe(d: Def, canonical: bool = False, tree: Tree | None = None, fn: FuncInfo | None = None) -> str:
+    """Human readable (or, with ``canonical``, local-name independent) description.  With ``tree``/``fn`` a
+    call of a package function is written with its arguments in declaration order (keyword or positional: same text)."""
     from .canon import canon
 
     name = "<id>" if canonical and d.kind != "param" else d.name
@@ -43,9 +56,49 @@ def describe(d: Def, canonical: bool = False) -> str:
         it = canon(d.node.iter) if canonical else unparse(d.node.iter)
         return f"{name}:for {it[:40]}"
     if d.value is not None:
-        v = canon(d.value) if canonical else unparse(d.value)
+        value = d.value
+        if canonical and tree is not None and isinstance(value, ast.Call):
+            value = positional_call(tree, fn, value)
+        v = canon(value, canon_scope(d.value)) if canonical else unparse(value)
         return f"{name}={v[:60]}"
     return f"{name}:{d.kind}"
+
+
+def canon_scope(node: ast.AST):
+    """Locals for ``canon`` when the node to be printed is a rebuilt copy (no parent links)."""
+    from .canon import local_names, top_function
+
+    top = top_function(node)
+    return local_names(top) if top is not None else set()
+
+
+def positional_call(tree: Tree, fn: FuncInfo | None, call: ast.Call) -> ast.Call:
+    """``f(b=y, a=x)`` as ``f(x, y)`` when f is a function of the package whose parameters can be bound."""
+    if not call.keywords or any(k.arg is None for k in call.keywords) or any(isinstance(a, ast.Starred) for a in call.args):
+        return call
+    q = tree.callee(call, fn) if hasattr(call, "_module") or fn is not None else None
+    callee = tree.funcs.get(q) if q else None
+    if callee is None:
+        return call
+    a = callee.node.args
+    if a.vararg or a.kwarg or a.kwonlyargs:
+        return call
+    pos = [x.arg for x in [*a.posonlyargs, *a.args]]
+    if callee.cls is not None and pos and pos[0] in {"self", "cls"} and not any(unparse(d) == "staticmethod" for d in callee.node.decorator_list):
+        pos = pos[1:]
+    bound = dict(zip(pos, call.args))
+    for k in call.keywords:
+        if k.arg in bound or k.arg not in pos:
+            return call
+        bound[k.arg] = k.value
+    args = []
+    for p_ in pos:
+        if p_ not in bound:
+            break
+        args.append(bound[p_])
+    if len(args) != len(bound):
+        return call
+    return ast.Call(func=call.func, args=args, keywords=[])
 
 
 def _rd_for(fn: FuncInfo, cache: dict) -> RD:
@@ -70,20 +123,68 @@ def _rd_for(fn: FuncInfo, cache: dict) -> RD:
     return find(root) or root
 
 
+def source_defs(rd: RD, defs, _seen: set | None = None) -> set[Def]:
+    """The definitions behind plain copies: ``a = b`` (also ``(a := b)`` and ``a: T = b``) stands for whatever
+    reaches ``b`` there.  An alias of the state id is the state id."""
+    seen = _seen if _seen is not None else set()
+    out: set[Def] = set()
+    for d in defs:
+        if id(d) in seen:
+            continue
+        seen.add(id(d))
+        if d.kind == "assign" and d.index is None and isinstance(d.value, ast.Name) and not isinstance(d.node, ast.AugAssign):
+            behind = rd.reaching(d.value)
+            if behind:
+                out |= source_defs(rd, behind, seen)
+                continue
+        out.add(d)
+    return out
+
+
+def _is_call_of(node: ast.AST, names: set[str]) -> bool:
+    return isinstance(node, ast.Call) and ((isinstance(node.func, ast.Name) and node.func.id in names) or (isinstance(node.func, ast.Attribute) and node.func.attr in names))
+
+
+def store_pairs(fn_node: ast.AST):
+    """(statement-like node, key expression, value expression, written mapping | None) of everything in the function
+    that puts ONE entry (or one zipped group of entries) into a mapping - whichever way it is spelled:
+    ``D[k] = v``, ``D.setdefault(k, v)`` / ``D.__setitem__(k, v)``, a dict comprehension, every ``k: v`` of a dict
+    display (returned, merged with ``update`` / ``|=`` / ``{**D, k: v}``), and ``zip(keys, values)`` or a
+    comprehension of ``(k, v)`` pairs handed to ``dict(...)`` / ``D.update(...)``."""
+    for node in walk_function(fn_node, nested=False):
+        if isinstance(node, ast.DictComp):
+            yield node, node.key, node.value, None
+        elif isinstance(node, ast.Assign) and len(node.targets) == 1 and isinstance(node.targets[0], ast.Subscript):
+            yield node, node.targets[0].slice, node.value, node.targets[0].value
+        elif isinstance(node, ast.AnnAssign) and isinstance(node.target, ast.Subscript) and node.value is not None:
+            yield node, node.target.slice, node.value, node.target.value
+        elif isinstance(node, ast.Dict):
+            for k, v in zip(node.keys, node.values):
+                if k is not None:
+                    yield node, k, v, None
+        elif isinstance(node, ast.Call) and isinstance(node.func, ast.Attribute) and node.func.attr in {"setdefault", "__setitem__"} and len(node.args) == 2 and not node.keywords:
+            yield node, node.args[0], node.args[1], node.func.value
+        elif (_is_call_of(node, {"update"}) or (isinstance(node.func if isinstance(node, ast.Call) else None, ast.Name) and node.func.id in {"dict", "OrderedDict"})) \
+                and len(node.args) == 1 and isinstance(node.args[0], (ast.GeneratorExp, ast.ListComp)) and isinstance(node.args[0].elt, ast.Tuple) and len(node.args[0].elt.elts) == 2:
+            # dict((k, v) for ...) / D.update((k, v) for ...): the comprehension form of the store
+            yield node.args[0], node.args[0].elt.elts[0], node.args[0].elt.elts[1], (node.func.value if isinstance(node.func, ast.Attribute) else None)
+        elif (_is_call_of(node, {"update"}) or (isinstance(node.func if isinstance(node, ast.Call) else None, ast.Name) and node.func.id in {"dict", "OrderedDict"})) \
+                and len(node.args) == 1 and _is_call_of(node.args[0], {"zip"}) and len(node.args[0].args) == 2 and not node.args[0].keywords:
+            z = node.args[0]
+            tgt = node.func.value if isinstance(node.func, ast.Attribute) else None
+            vals = z.args[1].elts if isinstance(z.args[1], (ast.Tuple, ast.List)) and not any(isinstance(x, ast.Starred) for x in z.args[1].elts) else [z.args[1]]
+            keys = z.args[0].elts if isinstance(z.args[0], (ast.Tuple, ast.List)) and len(z.args[0].elts) == len(vals) else None
+            for i, v in enumerate(vals):  # one entry per value (zip pairs them in order)
+                yield node, (keys[i] if keys is not None else z.args[0]), v, tgt
+
+
 def named_stores(tree: Tree, fn: FuncInfo, cache: dict | None = None) -> list[ProvStore]:
-    """Subscript stores ``D[key] = value`` in ``fn`` whose key comes from a naming function."""
+    """Entries ``key -> value`` written in ``fn`` (see ``store_pairs``) whose key comes from a naming function.
+    The identity definitions are taken behind plain copies (``source_defs``)."""
     cache = cache if cache is not None else {}
     rd = _rd_for(fn, cache)
     out: list[ProvStore] = []
-    for node in walk_function(fn.node, nested=False):
-        if isinstance(node, ast.DictComp):
-            # `{naming(...): value for ...}` - the comprehension form of the same store (also what the
-            # loader's normal form turns `d = {}; for ..: d[k] = v` into)
-            key_expr, value_expr = node.key, node.value
-        elif isinstance(node, ast.Assign) and len(node.targets) == 1 and isinstance(node.targets[0], ast.Subscript):
-            key_expr, value_expr = node.targets[0].slice, node.value
-        else:
-            continue
+    for node, key_expr, value_expr, target in store_pairs(fn.node):
         # the naming call: inline in the key, or in the definition of the key variable(s)
         calls = []
         for n in ast.walk(key_expr):
@@ -100,14 +201,108 @@ def named_stores(tree: Tree, fn: FuncInfo, cache: dict | None = None) -> list[Pr
         call = calls[0]
         idx = NAMING_FUNCTIONS[tree.callee(call, fn)]
         ident = next((k.value for k in call.keywords if k.arg in {"state_id", "edge_id"}), None)
-        if ident is None and len(call.args) > idx:
-            ident = call.args[idx]
+        positional = expanded_args(rd, call)
+        if ident is None and positional is not None and len(positional) > idx:
+            ident = positional[idx]
         if ident is None:
-            continue
-        identity_defs = rd.uses(ident)
+            from .loader import AnalysisError
+
+            raise AnalysisError(f"{fn.qual}: cannot read the state argument of `{unparse(call)[:70]}` (splatted / unusual argument list)")
+        identity_defs = source_defs(rd, rd.uses(ident))
         value_closure = rd.closure(rd.uses(value_expr))
-        out.append(ProvStore(fn, node, key_expr, value_expr, call, identity_defs, value_closure))
+        out.append(ProvStore(fn, node, key_expr, value_expr, call, identity_defs, value_closure, target, fn))
     return out
+
+
+def expanded_args(rd: RD, call: ast.Call) -> list[ast.AST] | None:
+    """The positional arguments of a call with ``*args`` of a statically known tuple / list spread out
+    (``args = (a, b); f(*args)`` is ``f(a, b)``); None if a splatted value is not known element by element."""
+    out: list[ast.AST] = []
+    for a in call.args:
+        if not isinstance(a, ast.Starred):
+            out.append(a)
+            continue
+        v = a.value
+        if isinstance(v, ast.Name):
+            defs = rd.reaching(v)
+            if len(defs) != 1:
+                return None
+            d = next(iter(defs))
+            if d.kind != "assign" or d.index is not None or isinstance(d.node, ast.AugAssign):
+                return None
+            v = d.value
+        if not isinstance(v, (ast.Tuple, ast.List)) or any(isinstance(e, ast.Starred) for e in v.elts):
+            return None
+        out += list(v.elts)
+    return out
+
+
+def bind_call(callee: FuncInfo, call: ast.Call) -> dict[str, ast.AST] | None:
+    """parameter name -> argument expression of ``call`` (None if the call cannot be bound statically)."""
+    a = callee.node.args
+    if a.vararg or a.kwarg or any(isinstance(x, ast.Starred) for x in call.args) or any(k.arg is None for k in call.keywords):
+        return None
+    pos = [x.arg for x in [*a.posonlyargs, *a.args]]
+    if callee.cls is not None and callee.outer is None and pos and pos[0] in {"self", "cls"} \
+            and not any(unparse(d) == "staticmethod" for d in callee.node.decorator_list):
+        pos = pos[1:]
+    if len(call.args) > len(pos):
+        return None
+    bound: dict[str, ast.AST] = dict(zip(pos, call.args))
+    for k in call.keywords:
+        if k.arg in bound or k.arg not in [*pos, *[x.arg for x in a.kwonlyargs]]:
+            return None
+        bound[k.arg] = k.value
+    return bound
+
+
+def stores_through_helpers(tree: Tree, fn: FuncInfo, cache: dict, _stack: tuple = (), max_depth: int = 3, skip: frozenset = frozenset()) -> list[ProvStore]:
+    """``named_stores`` of ``fn`` plus those of the package helpers it calls (a block of stores extracted into a
+    function - module level, static method or method - is still a block of stores of the caller): a store found
+    in a helper is LIFTED to the call site - a parameter of the helper among the identity definitions stands
+    for what reaches the corresponding argument, a parameter in the value closure for the closure of the
+    argument.  (Functions nested in ``fn`` are closures: they are analysed with ``fn``'s definitions by
+    ``named_stores`` directly; functions listed in ``skip`` are judged on their own.)"""
+    from .loader import AnalysisError
+
+    out = list(named_stores(tree, fn, cache))
+    if len(_stack) >= max_depth:
+        return out
+    rd = _rd_for(fn, cache)
+    for call, q in tree.calls_in(fn, nested=False):
+        helper = tree.funcs.get(q) if q else None
+        if helper is None or helper is fn or helper.qual in _stack or helper.qual in NAMING_FUNCTIONS or helper.qual in skip or not helper.qual.startswith("ampform."):
+            continue
+        if helper.outer is not None:
+            continue  # closure of some function: analysed with its definer
+        inner = stores_through_helpers(tree, helper, cache, (*_stack, fn.qual), max_depth, skip)
+        if not inner:
+            continue
+        bound = bind_call(helper, call)
+        hrd = _rd_for(helper, cache)
+        params = {d.name: d for d in hrd.defs if d.kind == "param"}
+        for s in inner:
+            p_ident = [d for d in s.identity_defs if d.kind == "param" and params.get(d.name) is d]
+            p_value = [d for d in s.value_closure if d.kind == "param" and params.get(d.name) is d]
+            if bound is None or any(d.name not in bound for d in [*p_ident, *p_value] if d.name not in _defaults(helper)):
+                raise AnalysisError(f"{fn.qual}: `{unparse(call)[:60]}` reaches a named kinematic-variable store in {helper.qual}, but its arguments cannot be bound to the parameters")
+            ident = {d for d in s.identity_defs if d not in p_ident}
+            for d in p_ident:
+                if d.name in bound:
+                    ident |= source_defs(rd, rd.uses(bound[d.name]))
+            closure = set(s.value_closure)
+            for d in p_value:
+                if d.name in bound:
+                    closure |= rd.closure(rd.uses(bound[d.name]))
+            # what names the entry in the caller: kept in the value closure only if it really flows into the value
+            out.append(ProvStore(fn, s.stmt, s.key_expr, s.value_expr, s.naming_call, ident, closure, s.target, s.origin or helper))
+    return out
+
+
+def _defaults(fn: FuncInfo) -> set[str]:
+    a = fn.node.args
+    pos = [x.arg for x in [*a.posonlyargs, *a.args]]
+    return set(pos[len(pos) - len(a.defaults):]) | {x.arg for x, d in zip(a.kwonlyargs, a.kw_defaults) if d is not None}
 
 
 # ---------------------------------------------------------------------------------------------
